@@ -25,8 +25,5 @@ func init() {
 		w.store(p.extend(PE{I: 0}), a[1])
 		return nil
 	})
-	reg("(time.Time).UnixMilli", func(w *Worker, fr *frame, a []Value, fn *ssa.Function) Value {
-		w.note("time.Time.UnixMilli is an unconstrained value")
-		return w.ctx.Var("aux:"+w.fresh("unixmilli"), BV(64))
-	})
+	// (time.Time).UnixMilli: bounded over-approximation in intr_C38s.go
 }
